@@ -448,8 +448,10 @@ def decodeBlock (o : ColOpts) (n : Nat) (bs : Bytes) : Option (List Cell) :=
 /-! ## Array builder and block iterators
 
 `ArrayBuilder`: raw data and validity kept separately; `NullableBlockIterator::next_batch`
-pushes the raw items and then **replaces** the builder's whole validity bitmap with the bits of
-the rows it just produced (`replace_bitmap`). -/
+lets the inner iterator push the raw items as valid and then rewrites the validity of the rows it
+just produced (`replace_bitmap`: the last `bits.length` validity bits; earlier rows keep theirs —
+/repo fix of `iter:nullable-batch-crosses-block`; before it the WHOLE bitmap was replaced, see
+`ArrB.replaceWholeBitmap`). -/
 
 structure ArrB where
   data : List Bytes := []
@@ -459,6 +461,13 @@ structure ArrB where
 /-- `Array::len` is the validity length; `get i` reads `data[i]` under `valid[i]`. -/
 def ArrB.finish (b : ArrB) : List Cell :=
   (b.valid.zip b.data).map fun (v, d) => if v then some d else none
+
+/-- `ArrayBuilder::replace_bitmap`: the validity of the last `bits.length` items. -/
+def ArrB.replaceBitmap (b : ArrB) (bits : List Bool) : ArrB :=
+  { b with valid := b.valid.take (b.valid.length - bits.length) ++ bits }
+
+/-- `replace_bitmap` as it was before the repair (regression statements only). -/
+def ArrB.replaceWholeBitmap (b : ArrB) (bits : List Bool) : ArrB := { b with valid := bits }
 
 def defaultItem : Kind → Bytes
   | .fixed w => zeros w
@@ -490,7 +499,24 @@ def nextBatch (it : BIter) (expected : Option Nat) (b : ArrB) : BIter × ArrB ×
   let raw := got.map (fun c => c.getD it.dflt)
   let bits := got.map Option.isSome
   let b' : ArrB :=
-    if it.rawNullable then { data := b.data ++ raw, valid := bits }
+    if it.rawNullable then
+      -- inner `next_batch_non_null` pushes `Some(item)` k times, then `replace_bitmap(bits)`
+      ({ data := b.data ++ raw, valid := b.valid ++ List.replicate got.length true } : ArrB).replaceBitmap bits
+    else { data := b.data ++ raw, valid := b.valid ++ bits }
+  ({ it with pos := it.pos + k }, b', k)
+
+/-- the same with the pre-repair `replace_bitmap` (whole bitmap replaced) -/
+def nextBatchPre (it : BIter) (expected : Option Nat) (b : ArrB) : BIter × ArrB × Nat :=
+  let avail := it.cells.length - it.pos
+  let k := match expected with
+    | some e => min e avail
+    | none => avail
+  let got := (it.cells.drop it.pos).take k
+  let raw := got.map (fun c => c.getD it.dflt)
+  let bits := got.map Option.isSome
+  let b' : ArrB :=
+    if it.rawNullable then
+      ({ data := b.data ++ raw, valid := b.valid ++ List.replicate got.length true } : ArrB).replaceWholeBitmap bits
     else { data := b.data ++ raw, valid := b.valid ++ bits }
   ({ it with pos := it.pos + k }, b', k)
 
